@@ -1843,7 +1843,12 @@ func (c *Compiler) getIdentities(cfgNode parse.Node, i schema.Identityref, node 
 	mod := node.Root()
 	tm, ident := c.getModuleAndReference(mod, baseStmnt, parse.NodeIdentity)
 
-	idid, _ := c.identities[tm.Name()+":"+ident.Name()]
+	idid, ok := c.identities[tm.Name()+":"+ident.Name()]
+	if !ok {
+		// eg an identity that is defined in a submodule
+		c.error(baseStmnt, fmt.Errorf("base identity not available: %s",
+			baseStmnt.Argument().String()))
+	}
 
 	idents := make([]*schema.Identity, 0, 0)
 
